@@ -64,6 +64,8 @@ inductive Cond where
 mutual
 inductive Stmt where
   | assign (x : Nat) (l : Lit)
+  /-- `x = y` (`y` another variable) -/
+  | assignVar (x : Nat) (y : Nat)
   | probe (id : Nat) (x : Nat)
   | ite (c : Cond) (thn : Block) (rest : Else)
 inductive Else where
@@ -119,6 +121,7 @@ abbrev Obs := Nat × Nat × Val
 mutual
 def Stmt.exec (ρ : Env) : Stmt → Env × List Obs
   | .assign x l => (ρ.set x l.val, [])
+  | .assignVar x y => (ρ.set x (ρ.get y), [])
   | .probe id x => (ρ, [(id, x, ρ.get x)])
   | .ite c thn rest => if c.eval ρ then thn.exec ρ else rest.exec ρ
 def Else.exec (ρ : Env) : Else → Env × List Obs
@@ -176,6 +179,7 @@ def widen : Atom → Atom
 mutual
 def Stmt.assigns (x : Nat) : Stmt → Bool
   | .assign y _ => x == y
+  | .assignVar y _ => x == y
   | .probe _ _ => false
   | .ite _ thn rest => thn.assigns x || rest.assigns x
 def Else.assigns (x : Nat) : Else → Bool
@@ -362,6 +366,59 @@ def assignNode (nv : Nat) (declOf : Nat → Atom) (y : Nat) (e : Atom) (ant : Pt
       ⟨assignRes (declOf x) e ant x .normal, assignRes (declOf x) e ant x .merge, assignRes (declOf x) e ant x .ignore⟩
     else ⟨ant.res x .normal, ant.res x .merge, ant.res x .ignore⟩
 
+/-! ### `x = y`: the right-hand side is the `Normal`-mode type of `y` before the assignment -/
+
+/-- `finish_assignment_result(source, expr_type)` for an arbitrary right-hand type (with the member-wise narrowing of
+an assigned union, commit 5dcb194) -/
+def assignResultTy (declT : Atom) (src : Ty) (t : Ty) : Ty :=
+  if isUnknown t then src
+  else
+    let special : Option Ty := match t with | [e] => assignSpecial declT src e | _ => none
+    match special with
+    | some r => r
+    | none =>
+      if preserves t then
+        let narrowed : Option Ty :=
+          if src == [.nil] then none
+          else match t with
+            | [e] => narrowDown src e
+            | _ => some (unionAll (t.map fun e => (narrowDown src e).getD [e]))
+        narrowed.getD t
+      else t
+
+/-- `can_reuse_narrowed_assignment_source` for an arbitrary right-hand type -/
+def canReuseTy (src : Ty) (t : Ty) : Bool :=
+  match t with
+  | [.tblC _] => true
+  | _ =>
+    if !(t.all Atom.isExact) then false
+    else match narrowDownTy src t with
+      | some n => tyEq n t
+      | none => true
+
+/-- the query at an `Assignment` node `x = y` for the assigned variable; `t` is the type of `y` -/
+def assignVarRes (declT : Atom) (t : Ty) (ant : Pt) (x : Nat) (m : Mode) : Res :=
+  if !isUnknown t && !preserves t && m != .merge then .ty t
+  else
+    let m' : Mode := if m == .merge then .merge else if preserves t then .normal else .ignore
+    match ant.res x m' with
+    | .unreach => .unreach
+    | .ty a =>
+      if preserves t && !canReuseTy a t then
+        match ant.res x .ignore with
+        | .unreach => .unreach
+        | .ty a2 => .ty (assignResultTy declT a2 t)
+      else .ty (assignResultTy declT a t)
+
+/-- an `Assignment` node `y = z` -/
+def assignVarNode (nv : Nat) (declOf : Nat → Atom) (y z : Nat) (ant : Pt) : St :=
+  let t := (ant.res z .normal).intoType
+  (List.range nv).map fun x =>
+    if x == y then
+      ⟨assignVarRes (declOf x) t ant x .normal, assignVarRes (declOf x) t ant x .merge,
+       assignVarRes (declOf x) t ant x .ignore⟩
+    else ⟨ant.res x .normal, ant.res x .merge, ant.res x .ignore⟩
+
 /-! ### Conditions: `bind_condition_expr`, `bind_and_expr`, `bind_or_expr`, `bind_unary_expr` -/
 
 /-- the condition under any number of `not`s is not `and`/`or` (`!is_binary_logical`) -/
@@ -404,6 +461,7 @@ mutual
 /-- `bind_*_stat`: flow id after the statement, and the types inferred at its probes -/
 def Stmt.aexec (nv : Nat) (declOf : Nat → Atom) (cur : Pt) : Stmt → Pt × List AObs
   | .assign x l => (.node (assignNode nv declOf x l.ty cur), [])
+  | .assignVar x y => (.node (assignVarNode nv declOf x y cur), [])
   | .probe id x => (.node (passNode nv cur), [(id, x, cur.typeOf x)])
   | .ite c thn rest =>
     let e := c.edges nv cur
